@@ -218,6 +218,9 @@ def pair_lines(rng, typ, n, nf, form, kind):
         P = np.eye(n)[perm]
         dutB = [P @ d @ P.T for d in dut]
     lines.append(B.apply_line(ciB, dutB))
+    if kind == 'ab_scaling':
+        # the device's readings too: a common factor of any size (reference level of the receivers)
+        lines[-1] = scale_apply_line(lines[-1], complex(rng.uniform(0.5, 2), rng.uniform(-1, 1)) * 10.0 ** rng.choice([-9, -7, -5, -3, 0, 3, 6, 9]))
     lines += ['cal free 0'] + (['cal free 1'] if kind != 'unrelated' else []) + ['cal live']
     return lines, ia, ib, dut, dutB, n
 
@@ -310,6 +313,24 @@ def scale_ab_line(rng, line, typ):
                     w[k], w[k + 1] = vlib.d2h(z.real), vlib.d2h(z.imag)
     scale(a0, ar, ac)
     scale(b0, br, bc)
+    return ' '.join(w)
+
+
+def scale_apply_line(line, c):
+    """multiply the a and b readings of an `ab` apply line by the common factor c"""
+    w = line.split()
+    if w[4] != 'ab':
+        return line
+    nf = int(w[5])
+    pos = 6 + nf
+    for _ in range(2):
+        r, k = int(w[pos]), int(w[pos + 1])
+        pos += 2
+        for i in range(r * k * nf):
+            z = complex(vlib.h2d(w[pos]), vlib.h2d(w[pos + 1])) * c
+            w[pos], w[pos + 1] = vlib.d2h(z.real), vlib.d2h(z.imag)
+            pos += 2
+    assert pos == len(w), line[:80]
     return ' '.join(w)
 
 
